@@ -65,7 +65,7 @@ def draw_k_n(rng, alg, cls):
         return 2, rng.randint(1, 12)
     big = cls in ("big", "huge", "bignear")
     if alg in ("greedy", "roundrobin", "multifit", "kk"):
-        k = rng.choice([1, 2, 2, 3, 3, 4, 5, 7, 9, 12, 20, 30] * 3 + [33, 65, 129, 257])
+        k = rng.choice([1, 2, 2, 3, 3, 4, 5, 7, 9, 12, 20, 30] * 3 + [33, 65, 129, 257]) if rng.random() < 0.8 else rng.randint(1, rng.choice([16, 40, 300]))    # any count, not only a menu
         n = rng.choice([rng.randint(1, 12), rng.randint(1, 12), rng.randint(13, 60), rng.randint(61, 300)])
         if cls == "kgtn":
             n = rng.randint(1, max(1, k - 1)) if k > 1 else 1
@@ -113,9 +113,9 @@ def draw_partition_case(rng, alg=None, cls=None, pres=None, algs=ALL_PART, class
     if "objective" in case and case["objective"][0] in ("ksmall", "klarge"):
         case["objective"][1] = rng.randint(1, k + 1)
     if alg == "multifit":
-        case["iterations"] = rng.choice([1, 2, 3, 5, 10, 20])
+        case["iterations"] = rng.choice([1, 2, 3, 5, 10, 20]) if rng.random() < 0.7 else rng.randint(1, 30)
     if alg == "cbldm":
-        case["cbldm_d"] = rng.choice([None, None, 1, 2, 3, len(values)])
+        case["cbldm_d"] = rng.choice([None, None, 1, 2, 3, len(values), rng.randint(1, len(values) + 2)])
     return case
 
 
